@@ -30,6 +30,12 @@ Inductive restore_shape :=
 | RestoreAlways         (* `state.default.replace(self.0.take())` *)
 | RestoreIfSome         (* `if let Some(dispatch) = self.0.take() { … replace(Some(dispatch)) }` (F1) *)
 | RestoreUnknown.
+(** How the per-thread re-entrancy flag `can_enter` — cleared while a collector callback runs under get_default_slow /
+    get_current, so that an emission from inside the callback gets Dispatch::none() — is set back. *)
+Inductive reentry_guard :=
+| GuardRaiiDrop         (* a guard object whose Drop does `can_enter.set(true)`: restored on return AND on unwind *)
+| GuardResetOnReturn    (* a plain `can_enter.set(true)` after the callback: NOT restored when the callback panics *)
+| GuardUnknown.
 Inductive fast_shape :=
 | FastWhenNoScope       (* `if SCOPED_COUNT.load(_) == 0 { return f(get_global()); } get_default_slow(f)` *)
 | FastUnknown.
@@ -51,7 +57,10 @@ Record dispatch_shape := {
   d_set_global : cas_shape;
   d_get_global_needs : option N;     (* get_global: `if GLOBAL_INIT.load(_) != X { return &NONE; } … &GLOBAL_DISPATCH` *)
   d_with_default_is_guard : bool;    (* with_default = `let _guard = set_default(d); f()`; set_default = State::set_default(d.clone()) *)
-  d_get_current_is_entered_current : bool  (* get_current = `state.enter()?` then `f(&entered.current())` *)
+  d_get_current_is_entered_current : bool; (* get_current = `state.enter()?` then `f(&entered.current())` *)
+  d_slow_guard : reentry_guard;            (* get_default_slow: `if can_enter.replace(false) { <guard>; f(default) } else { f(&none) }` *)
+  d_current_guard : reentry_guard;         (* State::enter: `if can_enter.replace(false) { Some(Entered(self)) } else { None }` + Drop for Entered *)
+  d_set_default_enters : bool              (* State::set_default does `can_enter.set(true)` *)
 }.
 
 (** The model's variant switch, read off the four sites; [None] = a mixture the model has no variant for. *)
@@ -80,7 +89,15 @@ Definition dispatch_shape_ok (d : dispatch_shape) : bool :=
   | Some x, (_, _, f) => x =? f
   | None, _ => false
   end &&
-  d_with_default_is_guard d && d_get_current_is_entered_current d.
+  d_with_default_is_guard d && d_get_current_is_entered_current d &&
+  match d_slow_guard d with GuardRaiiDrop => true | _ => false end &&
+  match d_current_guard d with GuardRaiiDrop => true | _ => false end &&
+  d_set_default_enters d.
+
+(** The re-entrancy model's switch (Dispatch/Reentry.v): does unwinding out of a collector callback restore `can_enter`?
+    Read off get_default_slow; anything but the RAII guard counts as "no" (for which C02_panic_in_callback_restores is false). *)
+Definition unwind_resets_of_shape (d : dispatch_shape) : bool :=
+  match d_slow_guard d with GuardRaiiDrop => true | _ => false end.
 
 (** The micro-step model's [ginit] against the source's numbers: GLOBAL_INIT as a number, and the three steps
     as number transformers read from the shape.  Proofs_Shape.v shows that [sg_step]'s moves on [ginit] are
